@@ -54,22 +54,38 @@ class ExtendsNode(Node):
 
     def render_to_output(self, context: RenderContext, buffer: TextIO) -> int:
         """Render the node to the output buffer."""
-        base_template = _build_block_stacks(context, context.template, "extends")
+        # This chain might have been included from inside a block of another chain.
+        # Block stacks of the including chain are set aside while this one renders.
+        block_stacks = context.tag_namespace["extends"]
+        outer_block_stacks = dict(block_stacks)
+        block_stacks.clear()
 
-        base_template.render_with_context(context, buffer)
-        context.tag_namespace["extends"].clear()
+        try:
+            base_template = _build_block_stacks(context, context.template, "extends")
+            base_template.render_with_context(context, buffer)
+        finally:
+            block_stacks.clear()
+            block_stacks.update(outer_block_stacks)
+
         raise StopRender
 
     async def render_to_output_async(
         self, context: RenderContext, buffer: TextIO
     ) -> int:
         """Render the node to the output buffer."""
-        base_template = await _build_block_stacks_async(
-            context, context.template, "extends"
-        )
+        block_stacks = context.tag_namespace["extends"]
+        outer_block_stacks = dict(block_stacks)
+        block_stacks.clear()
 
-        await base_template.render_with_context_async(context, buffer)
-        context.tag_namespace["extends"].clear()
+        try:
+            base_template = await _build_block_stacks_async(
+                context, context.template, "extends"
+            )
+            await base_template.render_with_context_async(context, buffer)
+        finally:
+            block_stacks.clear()
+            block_stacks.update(outer_block_stacks)
+
         raise StopRender
 
     def children(
